@@ -7,6 +7,8 @@
 // LICENSE file in the root of the Project.
 
 #include "BaseTagHDF5.hpp"
+
+#include <set>
 #include <nix/NDArray.hpp>
 #include <nix/util/util.hpp>
 #include "DataArrayHDF5.hpp"
@@ -106,9 +108,13 @@ bool BaseTagHDF5::removeReference(const std::string &name_or_id) {
 
 void BaseTagHDF5::references(const std::vector<DataArray> &refs_new) {
     // validate all new references first: a rejected call must not have removed anything
+    std::set<std::string> seen;
     for (const auto &ref : refs_new) {
         if (!block()->hasEntity({ref.id(), ObjectType::DataArray}))
             throw std::runtime_error("BaseTagHDF5::references: DataArray not found in block!");
+        // the same array twice cannot be linked twice: refuse here, not after the old references are gone
+        if (!seen.insert(ref.id()).second)
+            throw std::runtime_error("BaseTagHDF5::references: DataArray listed twice!");
     }
     while (referenceCount() > 0) {
         removeReference(getReference(0)->id());
